@@ -241,9 +241,35 @@ def model_coverage(ctx, opsfiles, sample=1):
             'how': 'extracted model compiled with ocamlcp -P a (bytecode, branch counters), run over the same operation files as the correspondence streams of this check'}
 
 
+CACHE_CAP_BYTES = 6 << 30   # observation cache (keyed by the fingerprint of /repo's tree) is capped
+
+
+def prune_cache(ctx):
+    """the observation cache holds one set of entries per fingerprint of /repo's working tree; runs
+    against many different trees would fill the disk. Oldest entries go first until under the cap."""
+    root = os.path.join(ctx.build, 'cache')
+    if not os.path.isdir(root):
+        return
+    ents = []
+    for name in os.listdir(root):
+        d = os.path.join(root, name)
+        try:
+            size = sum(os.path.getsize(os.path.join(d, f)) for f in os.listdir(d))
+            ents.append((os.path.getmtime(d), size, d))
+        except OSError:
+            continue
+    total = sum(e[1] for e in ents)
+    for mt, size, d in sorted(ents):
+        if total <= CACHE_CAP_BYTES:
+            break
+        shutil.rmtree(d, ignore_errors=True)
+        total -= size
+
+
 def build_all(ctx, clean_coq=False):
     res = {}
     with Lock(os.path.join(ctx.build, '.lock')):
+        prune_cache(ctx)
         ok, out, dt = build_harness(ctx)
         res['harness'] = (ok, out, dt)
         ok2, out2, dt2 = build_coq(ctx, clean=clean_coq)
@@ -541,6 +567,84 @@ def scenario_stream(ctx, path, fp):
     return (path, robs, mobs), None
 
 
+# ------------------------------------------------------------------ correspondence: message surface
+PRIV_KEYS = ('hub.cfg', 'hub.params', 'hub.newowner', 'rw.cfg', 'rw.newowner', 'dp.cfg', 'dp.newowner', 'rg.cfg',
+             'rg.newowner', 'rg.vals', 'tok.bsei.info', 'tok.stsei.info', 'hub.qcfg', 'hub.qparams')
+
+
+def surface_stream(ctx, pid):
+    """The message types of the contracts' entry points (variants and fields, from the code's own
+    schemars schemas) against the pinned surface lib/surface.txt.  Returns (stat, [(kind, payload, nofail, summary)]).
+    A new variant / field of a state-changing message kind of a contract the property depends on is not
+    covered by the model's message alphabet: the property is no longer shown.  New execute variants are
+    probed on the implementation (schema-generated instance, several senders, running and paused hub):
+    C11 - accepted by the paused hub; C10 - accepted from an unrelated address and changing configuration,
+    ownership, parameters, the validator set or a token's minter - are concrete violations."""
+    pinned = os.path.join(ctx.root, 'lib', 'surface.txt')
+    if not os.path.exists(pinned):
+        return None, []
+    rc, out = run([ctx.harness_bin, 'surface'], timeout=600)
+    if rc != 0:
+        return {'error': out[-300:]}, [('surface', {'kind': 'stream-failure', 'error': 'harness surface failed: ' + out[-400:]}, True, 'harness surface failed')]
+    cur = [l for l in out.splitlines() if l.strip()]
+    pin = [l for l in open(pinned).read().splitlines() if l.strip()]
+    added = sorted(set(cur) - set(pin))
+    removed = sorted(set(pin) - set(cur))
+    stat = {'lines': len(cur), 'pinned_lines': len(pin), 'added': added[:20], 'removed': removed[:20]}
+    prefixes = P.SURFACE.get(pid, [])
+
+    def relevant(l):
+        head = l.split()[0]
+        return any(head.startswith(px) for px in prefixes) and head.split('.', 1)[1] in P.SURFACE_KINDS
+    rel_added = [l for l in added if relevant(l)]
+    stat['relevant_added'] = rel_added[:20]
+    out_v = []
+    if not rel_added:
+        return stat, out_v
+    pinned_variants = set(' '.join(l.split()[:2]) for l in pin)
+    probes = {}
+    concrete = None
+    for l in rel_added:
+        head, variant = l.split()[0], l.split()[1]
+        contract, kind = head.split('.', 1)
+        if kind != 'execute' or ' '.join((head, variant)) in pinned_variants:
+            continue      # a new FIELD of a known variant, or not an execute message: nothing to send
+        rc, pout = run([ctx.harness_bin, 'surface-probe', contract, variant, '--why'], timeout=600)
+        probes[head + ' ' + variant] = pout[-4000:]
+        if rc != 0 or concrete:
+            continue
+        blocks = []
+        curb = None
+        for ln in pout.splitlines():
+            if ln.startswith('probe '):
+                curb = {'head': ln.split(), 'diff': []}
+                blocks.append(curb)
+            elif curb is not None and (ln.startswith('- ') or ln.startswith('+ ')):
+                curb['diff'].append(ln)
+        for b in blocks:
+            h = b['head']           # probe SITUATION SENDER ok|err
+            if len(h) < 4 or h[3] != 'ok':
+                continue
+            if pid == 'C11' and contract == 'hub' and h[1] == 'paused':
+                concrete = 'new hub message %s is accepted from %s while the hub is paused' % (variant, h[2])
+            if pid == 'C10' and h[1] == 'running' and h[2] == 'nobody':
+                priv = [d for d in b['diff'] if any(d[2:].startswith(k) for k in PRIV_KEYS)]
+                if priv:
+                    concrete = 'new %s message %s sent by an unrelated address is accepted and changes %s' % (contract, variant, priv[0][:120])
+            if concrete:
+                break
+    payload = {'kind': 'surface', 'added': rel_added, 'removed': [l for l in removed if relevant(l)],
+               'probes': probes,
+               'note': 'the message surface of the contracts differs from the pinned surface lib/surface.txt the model was '
+                       'written against; the theorems quantify over the model message alphabet only'}
+    if concrete:
+        payload['message'] = concrete
+        out_v.append(('surface', payload, False, 'message surface: ' + concrete))
+    else:
+        out_v.append(('surface', payload, True, 'message surface changed: ' + '; '.join(rel_added)[:200]))
+    return stat, out_v
+
+
 # ------------------------------------------------------------------ violation search
 def violation_search(ctx, pid, dv):
     """A model/implementation disagreement was found and no monitor failed.  Look for a concrete
@@ -716,6 +820,14 @@ def check_property(ctx, pid, tier, seed, replay=None):
                         'failing input among %d cases' % len(rust)})
             violations.append((rp, True, 'kernel %s disagreement: impl %s / model %s' % (kname, first_dis[0][:120], first_dis[1][:120])))
 
+    # ---- message surface (variants / fields of the entry points' message types) against the pinned one
+    sstat, sviol = surface_stream(ctx, pid)
+    if sstat is not None:
+        cov['surface'] = sstat
+    for kind, payload, nofail, summary in sviol:
+        rp = write_replay(ctx, pid, kind, payload)
+        violations.append((rp, nofail, summary))
+
     # ---- T2 history streams (scenarios first, then generated profiles)
     streams = []
     for scn in spec.get('scenarios', []):
@@ -870,6 +982,7 @@ def finish(ctx, pid, tier, seed, t0, spec, au, cov, violations, known_hits):
             'streams': cov['streams'],
             'builds_s': {k: v for k, v in cov.items() if k.startswith('build_')},
             'coqchk': cov.get('coqchk', 'not run in this tier (thorough only)'),
+            'message_surface': cov.get('surface', 'not run'),
             'model_branch_coverage': cov.get('model_coverage', {}),
         },
         'assumptions': spec.get('assumes', []),
@@ -878,7 +991,7 @@ def finish(ctx, pid, tier, seed, t0, spec, au, cov, violations, known_hits):
         'known_findings_reproduced': known_hits,
     }
     # development runs without the Coq audit never overwrite the evidence of record
-    evdir = os.path.join(ctx.build, 'evidence-dev') if (os.environ.get('VERIF_SKIP_AUDIT') == '1' or REPO != '/repo') else os.path.join(ctx.root, 'evidence')
+    evdir = os.path.join(ctx.build, 'evidence-dev') if (os.environ.get('VERIF_SKIP_AUDIT') == '1' or os.environ.get('VERIF_DEV_EVIDENCE') == '1' or REPO != '/repo') else os.path.join(ctx.root, 'evidence')
     os.makedirs(evdir, exist_ok=True)
     with open(os.path.join(evdir, pid + '.json'), 'w') as f:
         json.dump(ev, f, indent=1)
@@ -898,6 +1011,17 @@ def replay(ctx, pid, path):
     """Re-run a replay file: operation list on both sides + the property's monitors."""
     data = json.load(open(path))
     ctx.say(json.dumps({k: data[k] for k in data if k not in ('ops',)}, indent=1)[:4000])
+    if data.get('kind') == 'surface':
+        b = build_all(ctx)
+        if not b['harness'][0]:
+            ctx.say('harness build failed')
+            return 1
+        sstat, sviol = surface_stream(ctx, pid)
+        ctx.say(json.dumps(sstat, indent=1)[:3000])
+        for kind, payload, nofail, summary in sviol:
+            ctx.say(summary)
+            ctx.say('VIOLATION property=%s replay=%s%s' % (pid, path, ' no-failing-input-found' if nofail else ''))
+        return 1 if sviol else 0
     ops = data.get('ops')
     if not ops:
         ctx.say('replay file has no operation list (kernel or build replay); see the fields above')
